@@ -28,7 +28,15 @@ class C02(Prop):
     level_note = ("Lean kernel + standard axioms; hand-written model; prefsampling samplers are a parameter (their "
                   "actual output is captured and fed to the model); set iteration order is not modelled (alternative "
                   "keys compared as sets)")
-    theorems = []
+    theorems = [
+        "PrefVerif.C02.invariant",
+        "PrefVerif.C02.regroup",
+        "PrefVerif.C02.inferType_eq",
+        "PrefVerif.C02.views",
+        "PrefVerif.C02.sanity_clean",
+        "PrefVerif.C02.type_agrees",
+        "PrefVerif.C02.cex_invariant_nil",
+    ]
     rule = ("random histories of 1-8 operations mixing the four entry points and populate_IC/urn/IC_anon/mallows, "
             "strict/weak/partial votes with repeats within and across calls, numpy int ids; each history is replayed "
             "with the same multiset of votes regrouped into different operations; non-trivial = >= 2 operations and "
